@@ -437,9 +437,9 @@ pub fn run_recv(args: &[String]) -> i32 {
                 let mut rh = if via_read_half { conn.take_read_half() } else { None };
                 for call in 0..(n_junk + n_frames + 3) {
                     let r = match rh.as_mut() {
-                        Some(h) => Connection::receive_message_from_read_half(h, Duration::from_millis(if slow { 1000 } else { 300 })).await,
+                        Some(h) => Connection::receive_message_from_read_half(h, Duration::from_millis(if slow { 1000 } else { 2000 })).await,
                         // (the outer limit is the harness' own patience, not a read timeout of the library)
-                        None => match tokio::time::timeout(Duration::from_millis(if slow { 3000 } else { 300 }), conn.receive_message()).await {
+                        None => match tokio::time::timeout(Duration::from_millis(if slow { 3000 } else { 2500 }), conn.receive_message()).await {
                             Ok(r) => r,
                             Err(_) => {
                                 r2.lock().unwrap().push(json!({"k": "quiet"}));
